@@ -126,6 +126,7 @@ class Check:
         self.assumptions = []
         self.violations = []   # (key, replay path)
         self.known_hits = []
+        self.dup_counts = {}
         self.notes = []
         self.quick = tier == "quick"
 
@@ -167,7 +168,7 @@ class Check:
         shutil.rmtree(meta, ignore_errors=True)
         if workers is None:
             workers = NCPU
-        jopts = ["-XX:+UseParallelGC", "-Xmx" + heap, "-Dtlc2.TLC.stopAfter=%d" % (timeout + 60)]
+        jopts = ["-XX:+UseParallelGC", "-Xss64m", "-Xmx" + heap, "-Dtlc2.TLC.stopAfter=%d" % (timeout + 60)]
         if dfs:
             jopts.append("-Dtlc2.tool.queue.IStateQueue=StateDeque")
         cmd = ["java"] + jopts + ["-cp", TLC_JAR, "tlc2.TLC", "-workers", str(workers), "-metadir", meta,
@@ -254,6 +255,34 @@ class Check:
         os.replace(binp + ".tmp", binp)
         return binp
 
+    def build_many(self, specs, jobs=None):
+        """specs: list of dict(name, sources, flavour, defines, extra_flags, libs). Parallel build; returns list of
+        (spec, binary-or-None, log)."""
+        from concurrent.futures import ThreadPoolExecutor
+        res = []
+
+        def one(sp):
+            sub = Check.__new__(Check)
+            sub.__dict__ = dict(self.__dict__)
+            sub.cov = {"builds": []}
+            sub.last_build_log = ""
+            b = Check.build(sub, sp["name"], sp["sources"], sp.get("flavour", "asan"), sp.get("extra_flags", ()),
+                            sp.get("defines", ()), sp.get("libs", ()))
+            return sp, b, sub.last_build_log
+
+        with ThreadPoolExecutor(max_workers=jobs or NCPU) as ex:
+            for sp, b, log in ex.map(one, specs):
+                self.cov["builds"].append({"name": sp["name"], "flavour": sp.get("flavour", "asan"),
+                                           "defines": list(sp.get("defines", ()))})
+                res.append((sp, b, log))
+        return res
+
+    def run_many(self, cmds, jobs=None, timeout=900, env=None):
+        """cmds: list of argv; returns list of (rc, out, err) in order."""
+        from concurrent.futures import ThreadPoolExecutor
+        with ThreadPoolExecutor(max_workers=jobs or NCPU) as ex:
+            return list(ex.map(lambda a: self.run(a, timeout=timeout, env=env), cmds))
+
     def prune_cache(self, keep=400):
         try:
             ds = sorted((os.path.getmtime(os.path.join(CACHE, d)), d) for d in os.listdir(CACHE))
@@ -276,6 +305,30 @@ class Check:
             se = ex.stderr.decode(errors="replace") if isinstance(ex.stderr, bytes) else (ex.stderr or "")
             return 124, so, se + "\nTIMEOUT"
 
+    def validate_trace(self, module, cfg, trace_path, key, n_traces=1, n_events=0, timeout=900, dfs=False):
+        """Code -> spec: TLC accepts the recorded ndjson trace or names the longest matched prefix."""
+        t = self.tlc(module, cfg, tag="trace-" + re.sub(r"\W+", "_", key), workers=1, env={"VF_TRACE": trace_path},
+                     mode="trace", expect_ok=False, timeout=timeout, dfs=dfs)
+        if t["rc"] == 0:
+            self.cov["traces_validated_against_impl"] += n_traces
+            self.cov["trace_events_validated"] += n_events
+            return True
+        m = re.search(r'TRACE-REJECTED matched-prefix", (\d+)', t["out"])
+        if m:
+            # a rejection is reported only if an immediate re-run repeats it
+            t2 = self.tlc(module, cfg, tag="trace-rerun-" + re.sub(r"\W+", "_", key), workers=1,
+                          env={"VF_TRACE": trace_path}, mode="trace", expect_ok=False, timeout=timeout, dfs=dfs)
+            m2 = re.search(r'TRACE-REJECTED matched-prefix", (\d+)', t2["out"])
+            if not m2 or m2.group(1) != m.group(1):
+                self.model_failure("trace validation of %s not reproducible" % key)
+            k = int(m.group(1))
+            lines = open(trace_path).read().splitlines()
+            self.violation(key, {"what": "trace recorded from the implementation is not a behaviour of " + module,
+                                 "matched_prefix": k, "rejected_event": lines[k] if 0 <= k < len(lines) else None,
+                                 "preceding_events": lines[max(0, k - 3):k]})
+            return False
+        self.model_failure("%s failed unexpectedly on %s:\n%s" % (module, trace_path, t["out"][-3000:]))
+
     # ------------------------------------------------------------ violations
     def violation(self, key, detail):
         """Record a violation identified by `key` (stable, input/call-site based)."""
@@ -283,6 +336,9 @@ class Check:
         if t is not None:
             if key not in [k for k, _ in self.known_hits]:
                 self.known_hits.append((key, t))
+            return
+        if key in [k for k, _ in self.violations]:
+            self.dup_counts[key] = self.dup_counts.get(key, 1) + 1
             return
         if len(self.violations) >= 25:
             self.violations.append((key, None))
